@@ -860,6 +860,179 @@ theorem trans_noburst (s : Trxd.TxMsg) (v : Int) (hb : s.burst = none) :
 
 theorem fresh_nope : Trxd.RxMsg.fresh.nopeInd = false := by decide
 
+/-! ### one forwarding call against the property-level description -/
+
+/-- datagrams the DATA socket of `t` emits for the outcome of `gen_msg` (ValueError: nothing) -/
+def dgramsOf (t : Trx) (g : Except Trxd.Exc Trxd.Bytes) : List Dgram :=
+  match g with
+  | .ok b => [dataDgram t b]
+  | .error _ => []
+
+theorem sendMsg_dgramsOf (t : Trx) (m : Trxd.RxMsg) (l : Bool) (ds : List Dgram)
+    (h : sendMsg t m l = .ok ds) : ds = dgramsOf t (m.genMsg l) := by
+  rcases sendMsg_ok _ _ _ _ h with ⟨b, hb, hd⟩ | ⟨hb, hd⟩
+  · rw [hd, hb]; rfl
+  · rw [hd, hb]; rfl
+
+/-- version-1 fields of a forwarded burst: modulation by burst length, TSC / TSC set by
+`TrainingSeqGMSK.pick` (0, 0 when nothing matches or the modulation is not GMSK) -/
+def V1Meta (r : Trx) (bits : List Nat) (m : Trxd.RxMsg) : Prop :=
+  1 ≤ r.hdrVer →
+    m.modType = Trxd.Modulation.pickByBl bits.length ∧
+    m.tsc = some (tscOf (Trxd.Modulation.pickByBl bits.length) bits).1 ∧
+    m.tscSet = some (tscOf (Trxd.Modulation.pickByBl bits.length) bits).2
+
+/-- what recipient `r` emits for the burst `s` (frame `fn`, bits `bits`) transmitted by `src` -/
+structure CallSpec (r src : Trx) (s : Trxd.TxMsg) (fn : Int) (bits : List Nat) (dk : List Dgram) :
+    Prop where
+  supp_v0 : Spec.suppressed src r fn = true → r.hdrVer < 1 → dk = []
+  supp_v1 : Spec.suppressed src r fn = true → 1 ≤ r.hdrVer →
+    ∃ cm, Spec.IsNope r.hdrVer s.fn s.tn cm ∧ dk = dgramsOf r (cm.genMsg false)
+  fwd : Spec.suppressed src r fn = false →
+    ∃ cm, Spec.FwdMeta src r s.fn s.tn s.pwr bits cm ∧ V1Meta r bits cm ∧
+      dk = dgramsOf r (cm.genMsg true)
+
+/-- effect of the call on the world: a simulated loss decrements the counter of `k`, a mute leaves
+everything alone, a forwarded burst only advances the randomness stream -/
+def CallWorld (w : World) (k : Nat) (r src : Trx) (fn : Int) (w' : World) : Prop :=
+  (src.rfMuted = true ∨ r.rfMuted = true → w' = w) ∧
+  (src.rfMuted = false → r.rfMuted = false → Spec.dropDue r fn = true → w' = decDrop w k) ∧
+  (Spec.suppressed src r fn = false → DrawOnly w w')
+
+theorem nopeMsg_isNope (rx : Trxd.RxMsg) : Spec.IsNope rx.ver rx.fn rx.tn (nopeMsg rx) :=
+  ⟨rfl, rfl, rfl, rfl, rfl, rfl, rfl, rfl⟩
+
+theorem suppressOut_spec (r : Trx) (rx : Trxd.RxMsg) (ds : List Dgram)
+    (h : suppressOut r rx = .ok ds) :
+    (rx.ver < 1 → ds = []) ∧
+    (1 ≤ rx.ver → ∃ cm, Spec.IsNope rx.ver rx.fn rx.tn cm ∧ ds = dgramsOf r (cm.genMsg false)) := by
+  unfold suppressOut at h
+  split at h
+  · rename_i hv
+    injection h with h
+    exact ⟨fun _ => h.symm, fun h1 => by omega⟩
+  · rename_i hv
+    exact ⟨fun h1 => absurd h1 hv, fun _ => ⟨nopeMsg rx, nopeMsg_isNope rx, sendMsg_dgramsOf _ _ _ _ h⟩⟩
+
+theorem completed_fwdMeta (r src : Trx) (s : Trxd.TxMsg) (bits : List Nat) (rx cm : Trxd.RxMsg)
+    (hb : s.burst = some bits) (hfn : rx.fn = s.fn) (htn : rx.tn = s.tn) (hver : rx.ver = r.hdrVer)
+    (hbu : rx.burst = some (bits.map Spec.softOf)) (hc : Completed r src s rx cm) :
+    Spec.FwdMeta src r s.fn s.tn s.pwr bits cm ∧ V1Meta r bits cm := by
+  obtain ⟨c_fn, c_tn, c_ver, c_burst, c_nope, c_rssi, c_toa, c_v1, _⟩ := hc
+  refine ⟨?_, ?_⟩
+  · refine ⟨by rw [c_fn, hfn], by rw [c_tn, htn], by rw [c_ver, hver], c_nope,
+      by rw [c_burst, hbu], ?_, ?_, ?_⟩
+    · obtain ⟨v, h1, h2, h3⟩ := c_rssi
+      refine ⟨v, h1, fun hf => ?_, fun hf => ⟨(h3 hf).1, (h3 hf).2.1⟩⟩
+      obtain ⟨a, ha, hv⟩ := h2 hf
+      exact ⟨a, ha, by rw [hv]; simp only [Trx.txPower, Gen.World.pathLoss]⟩
+    · obtain ⟨d, h1, h2, h3, _⟩ := c_toa
+      exact ⟨d, by rw [h1, Int.mul_comm], h2, h3⟩
+    · intro hv
+      obtain ⟨ci, _, _, h1, h2, h3, _⟩ := c_v1 (by rw [hver]; exact hv)
+      exact ⟨ci, h1, h2, h3⟩
+  · intro hv
+    obtain ⟨ci, bits', hb', _, _, _, _, h1, h2, h3⟩ := c_v1 (by rw [hver]; exact hv)
+    rw [hb] at hb'; injection hb' with hb'; subst hb'
+    exact ⟨h1, h2, h3⟩
+
+theorem suppressed_of_dropDue {src r : Trx} {fn : Int} (h : Spec.dropDue r fn = true) :
+    Spec.suppressed src r fn = true := by
+  simp only [Spec.suppressed, h, Bool.or_true]
+
+/-- one call of the forwarding loop: recipient `k` (= `r`) handles the burst `s` of sender `j`
+(= `src`); the output and the effect on the world are as the properties demand -/
+theorem handleDataMsg_spec (w : World) (k j : Nat) (s : Trxd.TxMsg) (r src : Trx) (fn : Int)
+    (bits : List Nat) (rx : Trxd.RxMsg) (w' : World) (dk : List Dgram)
+    (hk : w.trxs[k]? = some r) (hj : w.trxs[j]? = some src) (hwf : Spec.DropWF r)
+    (hfn : s.fn = some fn) (hb : s.burst = some bits) (hbits : ∀ b ∈ bits, b < 256)
+    (hrx : (fwdInput src s).trans (some r.hdrVer) = .ok rx)
+    (h : handleDataMsg w k j (fwdInput src s) rx = .ok (w', dk)) :
+    CallSpec r src s fn bits dk ∧ CallWorld w k r src fn w' := by
+  by_cases hsm : src.rfMuted = true
+  · -- sender muted: the burst bits are stripped, the message becomes a NOPE indication
+    have hin : fwdInput src s = { s with burst := none } := by simp only [fwdInput, hsm, if_true]
+    rw [hin] at hrx h
+    rw [trans_noburst _ _ rfl] at hrx
+    injection hrx with hrx
+    have hnope : rx.nopeInd = true := by rw [← hrx]
+    have hver : rx.ver = r.hdrVer := by rw [← hrx]
+    have hfn' : rx.fn = s.fn := by rw [← hrx]
+    have htn' : rx.tn = s.tn := by rw [← hrx]
+    rw [handleDataMsg_muted w k j _ rx r src hk hj (.inr hnope)] at h
+    split at h
+    · rename_i ds hs
+      injection h with h; injection h with h1 h2
+      subst h1; subst h2
+      have hsup : Spec.suppressed src r fn = true := by simp only [Spec.suppressed, hsm, Bool.true_or]
+      obtain ⟨s0, s1⟩ := suppressOut_spec r rx _ hs
+      rw [hver, hfn', htn'] at s1
+      rw [hver] at s0
+      refine ⟨⟨fun _ => s0, fun _ => s1, fun hn => ?_⟩, fun _ => rfl, fun hn => ?_, fun hn => ?_⟩
+      · rw [hsup] at hn; cases hn
+      · rw [hsm] at hn; cases hn
+      · rw [hsup] at hn; cases hn
+    · cases h
+  · have hsm' : src.rfMuted = false := by simpa using hsm
+    have hin : fwdInput src s = s := by simp only [fwdInput, hsm', Bool.false_eq_true, if_false]
+    rw [hin] at hrx h
+    rw [trans_burst s _ bits hb hbits] at hrx
+    injection hrx with hrx
+    have hnope : rx.nopeInd = false := by rw [← hrx]; exact fresh_nope
+    have hver : rx.ver = r.hdrVer := by rw [← hrx]
+    have hfn' : rx.fn = s.fn := by rw [← hrx]
+    have htn' : rx.tn = s.tn := by rw [← hrx]
+    have hbu : rx.burst = some (bits.map Spec.softOf) := by rw [← hrx]
+    by_cases hrm : r.rfMuted = true
+    · rw [handleDataMsg_muted w k j _ rx r src hk hj (.inl hrm)] at h
+      split at h
+      · rename_i ds hs
+        injection h with h; injection h with h1 h2
+        subst h1; subst h2
+        have hsup : Spec.suppressed src r fn = true := by
+          simp only [Spec.suppressed, hrm, Bool.true_or, Bool.or_true]
+        obtain ⟨s0, s1⟩ := suppressOut_spec r rx _ hs
+        rw [hver, hfn', htn'] at s1
+        rw [hver] at s0
+        refine ⟨⟨fun _ => s0, fun _ => s1, fun hn => ?_⟩, fun _ => rfl, fun _ hn => ?_, fun hn => ?_⟩
+        · rw [hsup] at hn; cases hn
+        · rw [hrm] at hn; cases hn
+        · rw [hsup] at hn; cases hn
+      · cases h
+    · have hrm' : r.rfMuted = false := by simpa using hrm
+      rw [handleDataMsg_live w k j _ rx r src fn hk hj hrm' hnope (by rw [hfn', hfn]) hwf] at h
+      have hsupeq : Spec.suppressed src r fn = Spec.dropDue r fn := by
+        simp only [Spec.suppressed, hsm', hrm', Bool.false_or]
+      by_cases hd : Spec.dropDue r fn = true
+      · rw [if_pos hd] at h
+        split at h
+        · rename_i ds hs
+          injection h with h; injection h with h1 h2
+          subst h1; subst h2
+          have hsup : Spec.suppressed src r fn = true := by rw [hsupeq, hd]
+          obtain ⟨s0, s1⟩ := suppressOut_spec r rx _ hs
+          rw [hver, hfn', htn'] at s1
+          rw [hver] at s0
+          refine ⟨⟨fun _ => s0, fun _ => s1, fun hn => ?_⟩, fun hn => ?_, fun _ _ _ => rfl, fun hn => ?_⟩
+          · rw [hsup] at hn; cases hn
+          · rcases hn with hn | hn
+            · rw [hsm'] at hn; cases hn
+            · rw [hrm'] at hn; cases hn
+          · rw [hsup] at hn; cases hn
+        · cases h
+      · rw [if_neg hd] at h
+        have hsup : Spec.suppressed src r fn = false := by rw [hsupeq]; simpa using hd
+        obtain ⟨cm, hsend, hdo, hc⟩ := passOn_ok _ _ _ _ _ _ _ h
+        obtain ⟨m1, m2⟩ := completed_fwdMeta r src s bits rx cm hb hfn' htn' hver hbu hc
+        refine ⟨⟨fun hn => ?_, fun hn => ?_, fun _ => ⟨cm, m1, m2, sendMsg_dgramsOf _ _ _ _ hsend⟩⟩,
+          fun hn => ?_, fun _ _ hn => ?_, fun _ => hdo⟩
+        · rw [hsup] at hn; cases hn
+        · rw [hsup] at hn; cases hn
+        · rcases hn with hn | hn
+          · rw [hsm'] at hn; cases hn
+          · rw [hrm'] at hn; cases hn
+        · exact absurd hn hd
+
 end OsmoVerif.World
 
 /-! ### codec facts about `RxMsg.validate` / `RxMsg.genMsg`
